@@ -11,6 +11,7 @@ import FormakVerif.Model.Ekf
 import FormakVerif.Model.Validate
 import FormakVerif.Model.Sklearn
 import FormakVerif.Model.Workflow
+import FormakVerif.Model.Poly
 open Lean FormakVerif
 
 def parseRat (s : String) : Except String Rat :=
@@ -125,6 +126,25 @@ def opPyRun (j : Json) : Except String Json := do
     | .ok out => return okJ (namedOut floatBits (layout d.state) out)
     | .error e => return errJ (runErrStr e)
 
+def exprInFragment : Expr → Bool
+  | .var _ => true | .num _ => true
+  | .add a b => exprInFragment a && exprInFragment b | .mul a b => exprInFragment a && exprInFragment b
+  | .div a b => exprInFragment a && exprInFragment b
+  | .neg a => exprInFragment a | .pow a _ => exprInFragment a | .app _ _ => false
+
+def FormakVerif.Expr.size : Expr → Nat
+  | .var _ => 1 | .num _ => 1
+  | .add a b => a.size + b.size + 1 | .mul a b => a.size + b.size + 1 | .div a b => a.size + b.size + 1
+  | .neg a => a.size + 1 | .pow a _ => a.size + 1 | .app _ a => a.size + 1
+
+/-- verified symbolic check (`checkProgramSymB`, size-guarded): true / false, or why no verdict was reached -/
+def symbolicVerdict (spec : List Expr) (prog : Program) : Json :=
+  let inFragment := (prog.inline ++ spec).all fun e => (toFrac (.num 0)).isSome && exprInFragment e
+  if !inFragment then Json.str "not-in-fragment"
+  else match checkProgramSymB 300 spec prog with
+    | some b => Json.bool b
+    | none => Json.str "gave-up"
+
 /-- `checkprog`: well-scopedness of a recorded block, and exact agreement of the block with the
 given specification expressions at the given rational points. -/
 def opCheckProg (j : Json) : Except String Json := do
@@ -153,7 +173,7 @@ def opCheckProg (j : Json) : Except String Json := do
     idx := idx + 1
   return okJ (Json.mkObj [("wellscoped", ws), ("agree", agree), ("evaluated", evaluated),
     ("firstbad", match firstBad with | some i => Json.num i | none => Json.null),
-    ("speclen_ok", spec.length == prog.body.length)])
+    ("speclen_ok", spec.length == prog.body.length), ("symbolic", symbolicVerdict spec prog)])
 
 def opLayout (j : Json) : Except String Json := do
   let names ← jStrList (← j.getObjVal? "names")
@@ -374,7 +394,7 @@ def opCheckJac (j : Json) : Except String Json := do
     idx := idx + 1
   return okJ (Json.mkObj [("wellscoped", ws), ("agree", agree), ("evaluated", evaluated),
     ("firstbad", match firstBad with | some i => Json.num i | none => Json.null),
-    ("speclen_ok", spec.length == prog.body.length)])
+    ("speclen_ok", spec.length == prog.body.length), ("symbolic", symbolicVerdict spec prog)])
 
 /-! ### validation -/
 def jNoiseEntry (j : Json) : Except String (NoiseKey × Rat) := do
